@@ -20,6 +20,10 @@ package main
 //@   at call Document.Process#2
 //@     assert (= d@arg targetDoc)                                                                              [C15]
 //
+//@ func getOnlyDocument(path) (doc, format, err)
+//@   property C15
+//@   propagates all   [C15] [C08]
+//
 //@ func diffDoc(dst, src) (res, err)
 //@   property C15
 //@   requires (plainT (Document.Data dst))
